@@ -173,6 +173,14 @@ class Ctx:
             if not a.startswith('Closed under the global context'):
                 self.notes.append(f'{t} depends on: {a}')
         self.cov.setdefault('rechecked_this_run', []).append(vfile)
+        if self.tier == 'thorough':
+            # independent re-check of the compiled property module and everything it depends on
+            rc, out, err, dt = sh(['coqchk', '-silent', '-o', '-Q', '.', 'Rapid', f'Rapid.Properties.{prop}'], cwd=COQ, timeout=3600)
+            summary = re.sub(r'\s+', ' ', out[out.find('CONTEXT SUMMARY'):]).strip() if 'CONTEXT SUMMARY' in out else (out + err)[-500:]
+            self.cov['coqchk'] = {'seconds': round(dt, 1), 'summary': summary[:600]}
+            if rc != 0 or 'Axioms: <none>' not in summary:
+                self.broken('obligation', f'coqchk does not accept Rapid.Properties.{prop} with an empty axiom list', (out + err)[-3000:])
+                return False
         return True
 
     # ---------- harness / model ----------
